@@ -1250,6 +1250,23 @@ def generate(rng, tier):
         cases.append(_gen_shared_ops(rng, big))
     for _ in range(40 if big else 4):
         cases.append(_gen_shared_ops(rng, big, partial=True))
+    # rejected assignments of HUGE values (1e8 … 1e150) in the middle of a history: the object must be exactly what it was, and the
+    # next assignments are judged against the true total (a running total that absorbed the huge value forgets the rest)
+    for _ in range(60 if big else 12):
+        n = rng.choice([2, 4, 4, 8])
+        basis = rng.randrange(n)
+        vec = [[1, 0] if i == basis else [0, 0] for i in range(n)] if rng.random() < 0.6 else \
+            ([["3/5", 0], [0, "4/5"]] + [[0, 0]] * (n - 2))
+        other = [i for i in range(n) if vec[i] == [0, 0]] or [0]
+        ops = []
+        for _ in range(rng.randrange(1, 3)):
+            e = rng.choice([8, 9, 12, 16, 30, 100, 150])
+            huge = [str(10 ** e), 0] if rng.random() < 0.7 else [0, str(-(10 ** e))]
+            ops.append({"op": "set", "i": rng.choice(other + [basis]), "val": huge})               # rejected
+            ops.append({"op": "set", "i": rng.choice(other), "val": rng.choice([[1, 0], [0, 1], ["3/5", 0]])})   # rejected too (total > 1)
+        ops.append({"op": "set", "i": rng.choice(other), "val": [0, 0]})                          # accepted (nothing changes)
+        cases.append({"kind": "ops", "exact": False, "vec": vec, "ops": ops,
+                      **({"container": rng.choice(["ndarray", "list"])} if rng.random() < 0.5 else {})})
     for exprs, binds in EXPR_CASES:
         cases.append({"kind": "expr", "vec": exprs, "binds": binds})
     # Dicke states: all (n, k) up to the width, and invalid requests
